@@ -725,9 +725,16 @@ theorem iroot_singles (P : Prim) (del : Bool) (s : St) :
   rw [(flushRelats_frame _).2.2, f1, f2, f3]
   simp [flushRecs, saveSingles]
 
+/-- `b` decodes back to whatever item it is the encoding of (C14: true of every `b` shorter than 2^64 bytes) -/
+def DecOK (b : Bytes) : Prop := ∀ i, enc i = b → dec b = some i
+
+theorem DecOK.dec_enc {i : Item} (h : DecOK (enc i)) : dec (enc i) = some i := h i rfl
+
 /-- **Commit then New**: the reopened state holds exactly the three committed tries, and the statistics, withdraw queue,
 validator index and pending relationships it loads are the live ones -/
-theorem reopen_loads (P : Prim) (del : Bool) (s : St) (hrt : ∀ i, dec (enc i) = some i) (hr : CohR s) :
+theorem reopen_loads (P : Prim) (del : Bool) (s : St) (hr : CohR s)
+    (h1 : DecOK (commit P del s).t.val.index) (h2 : DecOK (commit P del s).t.val.stat)
+    (h3 : DecOK (commit P del s).t.val.queue) (h4 : DecOK (commit P del s).t.stk.relats) :
     openSt (commit P del s).db (roots P (commit P del s)) =
       some { db := (commit P del s).db, t := (commit P del s).t, index := sortKeys (commit P del s).index,
              stat := (commit P del s).stat, queue := (commit P del s).queue, relats := (commit P del s).relats } := by
@@ -739,6 +746,11 @@ theorem reopen_loads (P : Prim) (del : Bool) (s : St) (hrt : ∀ i, dec (enc i) 
   have hi : (commit P del s).index = (iroot P del s).index := rfl
   have hrl : (commit P del s).relats = (iroot P del s).relats := rfl
   have hroots : roots P (commit P del s) = roots P (iroot P del s) := rfl
+  rw [ht] at h1 h2 h3 h4
+  rw [i1] at h1; rw [i2] at h2; rw [i3] at h3
+  have d1 := h1.dec_enc
+  have d2 := h2.dec_enc
+  have d3 := h3.dec_enc
   have ha : aget (commit P del s).db.acctT (roots P (iroot P del s)).root = some (iroot P del s).t.acct := by
     simp [commit, aget_aput]
   have hv : aget (commit P del s).db.valT (roots P (iroot P del s)).valRoot = some (iroot P del s).t.val := by
@@ -752,12 +764,14 @@ theorem reopen_loads (P : Prim) (del : Bool) (s : St) (hrt : ∀ i, dec (enc i) 
   unfold openSt
   rcases hrel with hrel | ⟨hrel1, hrel2⟩
   · have e4 : (iroot P del s).t.stk.relats ≠ [] := by rw [hrel]; exact enc_list_ne_nil _
-    simp only [ha, hv, hk, e1, e2, e3, e4, if_false, Option.bind_eq_bind, Option.bind_some, Option.pure_def]
+    simp only [ha, hv, hk, loadList, loadStat, loadQueue, e1, e2, e3, e4, if_false, Option.bind_some]
+    rw [hrel] at h4
+    have d4 := h4.dec_enc
     rw [i1, i2, i3, hrel]
-    simp only [hrt, Option.bind_some, bytesList_rt, stat_rt, queue_rt]
-  · simp only [ha, hv, hk, e1, e2, e3, hrel1, if_true, if_false, Option.bind_eq_bind, Option.bind_some, Option.pure_def]
+    simp only [d1, d2, d3, d4, Option.bind_some, bytesList_rt, stat_rt, queue_rt]
+  · simp only [ha, hv, hk, loadList, loadStat, loadQueue, e1, e2, e3, hrel1, if_true, if_false, Option.bind_some]
     rw [i1, i2, i3]
-    simp only [hrt, Option.bind_some, bytesList_rt, stat_rt, queue_rt, hrel2]
+    simp only [d1, d2, d3, Option.bind_some, bytesList_rt, stat_rt, queue_rt, hrel2]
 
 
 
@@ -810,7 +824,7 @@ theorem val_undeleted (v : Val) (h : v.deleted = false) : ({ v with deleted := f
   cases v; simp_all
 
 /-- **reopened validators = live validators** -/
-theorem reopen_getVal (P : Prim) (del : Bool) (s : St) (hrt : ∀ i, dec (enc i) = some i) (h : CohV s) (s' : St)
+theorem reopen_getVal (P : Prim) (del : Bool) (s : St) (hrt : ∀ a, DecOK (cget (commit P del s).t.val.vals a)) (h : CohV s) (s' : St)
     (ht : s'.t = (commit P del s).t) (hl : s'.vals = []) (a : Bytes) : getVal s' a = getVal (commit P del s) a := by
   have hcv : (commit P del s).vals = (iroot P del s).vals := rfl
   have hct : (commit P del s).t = (iroot P del s).t := rfl
@@ -827,7 +841,11 @@ theorem reopen_getVal (P : Prim) (del : Bool) (s : St) (hrt : ∀ i, dec (enc i)
     · simp [hd]
     · have hd' : v.deleted = false := by simpa using hd
       have hne : enc (valItem v) ≠ [] := enc_list_ne_nil _
-      simp only [hd', Bool.false_eq_true, if_false, hne, decVal, hrt, Option.bind_some, val_rt, val_undeleted v hd']
+      have hda := hrt a
+      rw [hct, hleaf] at hda
+      unfold valLeaf' at hda
+      simp only [hd', Bool.false_eq_true, if_false] at hda
+      simp only [hd', Bool.false_eq_true, if_false, hne, decVal, hda.dec_enc, Option.bind_some, val_rt, val_undeleted v hd']
 
 theorem iroot_recs_live (P : Prim) (del : Bool) (s : St) : (iroot P del s).recs = s.recs := by
   unfold iroot
@@ -845,7 +863,7 @@ theorem iroot_cohS (P : Prim) (del : Bool) (s : St) (h : CohS s) (k : Bytes) (r 
   · rw [if_neg hd]; exact h k r hr hd
 
 /-- **reopened staking records = live staking records** -/
-theorem reopen_getSRec (P : Prim) (del : Bool) (s : St) (hrt : ∀ i, dec (enc i) = some i) (h : CohS s) (s' : St)
+theorem reopen_getSRec (P : Prim) (del : Bool) (s : St) (hrt : ∀ k, DecOK (cget (commit P del s).t.stk.recs k)) (h : CohS s) (s' : St)
     (ht : s'.t = (commit P del s).t) (hl : s'.recs = []) (k : Bytes) : getSRec s' k = getSRec (commit P del s) k := by
   have hcv : (commit P del s).recs = (iroot P del s).recs := rfl
   have hct : (commit P del s).t = (iroot P del s).t := rfl
@@ -857,7 +875,9 @@ theorem reopen_getSRec (P : Prim) (del : Bool) (s : St) (hrt : ∀ i, dec (enc i
   | some r =>
     have hleaf := iroot_cohS P del s h k r hv
     have hne : enc (srecItem r) ≠ [] := enc_list_ne_nil _
-    simp only [hleaf, hne, if_false, decSRec, hrt, Option.bind_some, srec_rt]
+    have hda := hrt k
+    rw [hct, hleaf] at hda
+    simp only [hleaf, hne, if_false, decSRec, hda.dec_enc, Option.bind_some, srec_rt]
 
 
 
